@@ -65,7 +65,7 @@ Proof. vm_compute. reflexivity. Qed.
 Theorem C05_cmd_any_config : forall (c : cmd) (l : list rec) (P : list (list rec)) (arr : list (nat * list rec)),
   concat P = l -> Permutation arr (numbered (map (on_batch rec rec (cmd_f c)) P)) ->
   pipeline_out rec arr = flat_map (cmd_f c) l.
-Proof. intros c. exact (pipeline_any_config rec rec (cmd_f c)). Qed.
+Proof. exact cmd_any_config. Qed.
 
 (** Folding commands (obicount; obisummary's merge of per-worker partial results): in ANY commutative
     monoid, the result of consuming the batches in arrival order — no order restoration — is the
@@ -86,7 +86,7 @@ Proof. exact fold_workers_any_config. Qed.
 Theorem C05_count_any_config : forall (l : list rec) (P arr : list (list rec)),
   concat P = l -> Permutation arr P ->
   count_out arr = (Z.of_nat (length l), fold_right Z.add 0%Z (map rec_count l), fold_right Z.add 0%Z (map rec_len l)).
-Proof. intros l P arr HP Ha. rewrite (count_any_config l P arr HP Ha). apply count_spec_values. Qed.
+Proof. exact count_any_config_values. Qed.
 
 (** sanity of the modelled reverse complement: an involution on lower-case IUPAC DNA, length preserving *)
 Theorem C05_revcomp_involutive : forall r,
@@ -104,7 +104,7 @@ Proof. exact revcomp_loop_spec. Qed.
 Theorem C05_csv_any_config : forall (keys : list (list N)) (l : list rec) (P : list (list rec)) (arr : list (nat * list (list aval))),
   concat P = l -> Permutation arr (numbered (map (on_batch rec (list aval) (csv_f keys)) P)) ->
   pipeline_out (list aval) arr = flat_map (csv_f keys) l.
-Proof. intros keys. exact (pipeline_any_config rec (list aval) (csv_f keys)). Qed.
+Proof. exact csv_any_config. Qed.
 
 Example C05_nonvacuous :
   (* a 3-batch configuration with an empty batch, arrival order 2,0,1, f duplicating records *)
